@@ -16,6 +16,7 @@ CONSTANTS
   MaxInVain = 2
   AtomicNeg = TRUE
   PopAny = TRUE
+  MaxDangle = 0
   Bug = "none"
 INVARIANT TypeOK
 INVARIANT Antecedent
